@@ -15,6 +15,7 @@ import HtmlVerif.Generated.Src
 import HtmlVerif.Lemmas.SrcC09
 
 set_option linter.unusedVariables false
+set_option linter.unusedSimpArgs false
 
 namespace HtmlVerif.SrcTie
 open HtmlVerif HtmlVerif.Py HtmlVerif.Generated.Src
@@ -27,56 +28,55 @@ theorem src_taglist_tagify_step (h : TagList_tagify_available = true) (G : Globa
     TagList_tagify G (fuel + 1) (tagListOf (embTs tv ks)) = .ok (tagListOf (embTs tv (tagifyNodes ks))) := by
   first
   | exact absurd h (by decide)
-  | skip
-  rw [TagList_tagify]
-  simp only [ok_bind, pure_eq_ok, truthy_bool, pyCopy_tagListOf, pyLenU_tagListOf, pyRange_nat, pyReversed_list, pyIter_list,
-    embTs_toList, List.length_map]
-  refine tagify_loop_k tv specResult ks.toList _ ?step _ _ ?k
-  case k =>
-    intro s hs
-    rw [hs, flatMap_specResult]
-  case step =>
-    intro pre c post s hc hs
-    obtain ⟨s1, s2, s3, s4⟩ := s
-    simp only at hs; subst hs
-    have hget := pyGetItemU_at (pre.map (embT tv)) (embT tv c) (post.map (embT tv))
-    have hset := fun v => pySetItemU_at (pre.map (embT tv)) (embT tv c) v (post.map (embT tv))
-    have hsl := fun xs => pySetSliceU_at (pre.map (embT tv)) (embT tv c) (post.map (embT tv)) xs
-    simp only [List.length_map] at hget hset hsl
-    simp only [List.map_append, List.map_cons, hget, ok_bind, isTagifiable_embT, isMetaT_embT]
-    cases c with
-    | tag nm ws at' kk =>
-      have hp := HP _ hc rfl
-      have hcls : pyClassOf (embT tv (Node.tag nm ws at' kk)) = "Tag" := rfl
-      simp only [Node.isTagifiable_tag, if_true, hcls, hp, ok_bind, not_taglist_embT, Bool.false_eq_true, if_false, hset]
-      simp [stepSpec, specResult, tagifyTag, C09.C09_tagify_is_spec, TagifyResult.splice]
-    | tobjL rh cc =>
-      have hcls : pyClassOf (embT tv (Node.tobjL rh cc)) = "TagifyObj" := rfl
-      have hv := htv _ hc rfl rfl
-      have hty : pyTagifyObj (embT tv (Node.tobjL rh cc)) = .ok (tv (Node.tobjL rh cc)) := by
-        simp [embT, pyTagifyObj, fieldGet?]
-      simp only [Node.isTagifiable_tobjL, if_true, hcls, hty, ok_bind, hv, stepSpec]
-      cases specResult (Node.tobjL rh cc) with
-      | taglist ns =>
-        have hi : isInstance (tagListOf (ns.map (embT tv))) ["TagList"] = true := by simp [tagListOf, isInstance]
-        simp [embResult, hi, pyTagchilds_embT, pyAdd_int1, hsl, TagifyResult.splice]
-      | single x => simp [embResult, not_taglist_embT, hset, TagifyResult.splice]
-    | tobj1 rh cc =>
-      have hcls : pyClassOf (embT tv (Node.tobj1 rh cc)) = "TagifyObj" := rfl
-      have hv := htv _ hc rfl rfl
-      have hty : pyTagifyObj (embT tv (Node.tobj1 rh cc)) = .ok (tv (Node.tobj1 rh cc)) := by
-        simp [embT, pyTagifyObj, fieldGet?]
-      simp only [Node.isTagifiable_tobj1, if_true, hcls, hty, ok_bind, hv, stepSpec]
-      cases specResult (Node.tobj1 rh cc) with
-      | taglist ns =>
-        have hi : isInstance (tagListOf (ns.map (embT tv))) ["TagList"] = true := by simp [tagListOf, isInstance]
-        simp [embResult, hi, pyTagchilds_embT, pyAdd_int1, hsl, TagifyResult.splice]
-      | single x => simp [embResult, not_taglist_embT, hset, TagifyResult.splice]
-    | mnode k => simp [Node.isMeta, pyCopy_meta tv (Node.mnode k) rfl, hset, stepSpec]
-    | dep d hh hd => simp [Node.isMeta, pyCopy_meta tv (Node.dep d hh hd) rfl, hset, stepSpec]
-    | text t => simp [Node.isMeta, stepSpec]
-    | html t => simp [Node.isMeta, stepSpec]
-    | robj t => simp [Node.isMeta, stepSpec]
+  | rw [TagList_tagify]
+    simp only [ok_bind, pure_eq_ok, truthy_bool, pyCopy_tagListOf, pyLenU_tagListOf, pyRange_nat, pyReversed_list, pyIter_list,
+      embTs_toList, List.length_map]
+    refine tagify_loop_k Prod.fst tv specResult ks.toList _ rfl _ ?step _ _ ?k
+    case k =>
+      intro s hs
+      rw [hs, flatMap_specResult]
+    case step =>
+      intro pre c post s hc hs
+      obtain ⟨s1, s2, s3, s4⟩ := s
+      simp only at hs; subst hs
+      have hget := pyGetItemU_at (pre.map (embT tv)) (embT tv c) (post.map (embT tv))
+      have hset := fun v => pySetItemU_at (pre.map (embT tv)) (embT tv c) v (post.map (embT tv))
+      have hsl := fun xs => pySetSliceU_at (pre.map (embT tv)) (embT tv c) (post.map (embT tv)) xs
+      simp only [List.length_map] at hget hset hsl
+      simp only [List.map_append, List.map_cons, hget, ok_bind, isTagifiable_embT, isMetaT_embT]
+      cases c with
+      | tag nm ws at' kk =>
+        have hp := HP _ hc rfl
+        have hcls : pyClassOf (embT tv (Node.tag nm ws at' kk)) = "Tag" := rfl
+        simp only [Node.isTagifiable_tag, if_true, hcls, hp, ok_bind, not_taglist_embT, Bool.false_eq_true, if_false, hset]
+        simp [stepSpec, specResult, tagifyTag, C09.C09_tagify_is_spec, TagifyResult.splice]
+      | tobjL rh cc =>
+        have hcls : pyClassOf (embT tv (Node.tobjL rh cc)) = "TagifyObj" := rfl
+        have hv := htv _ hc rfl rfl
+        have hty : pyTagifyObj (embT tv (Node.tobjL rh cc)) = .ok (tv (Node.tobjL rh cc)) := by
+          simp [embT, pyTagifyObj, fieldGet?]
+        simp only [Node.isTagifiable_tobjL, if_true, hcls, hty, ok_bind, hv, stepSpec]
+        cases specResult (Node.tobjL rh cc) with
+        | taglist ns =>
+          have hi : isInstance (tagListOf (ns.map (embT tv))) ["TagList"] = true := by simp [tagListOf, isInstance]
+          simp [embResult, hi, pyTagchilds_embT, pyAdd_int1, hsl, TagifyResult.splice]
+        | single x => simp [embResult, not_taglist_embT, hset, TagifyResult.splice]
+      | tobj1 rh cc =>
+        have hcls : pyClassOf (embT tv (Node.tobj1 rh cc)) = "TagifyObj" := rfl
+        have hv := htv _ hc rfl rfl
+        have hty : pyTagifyObj (embT tv (Node.tobj1 rh cc)) = .ok (tv (Node.tobj1 rh cc)) := by
+          simp [embT, pyTagifyObj, fieldGet?]
+        simp only [Node.isTagifiable_tobj1, if_true, hcls, hty, ok_bind, hv, stepSpec]
+        cases specResult (Node.tobj1 rh cc) with
+        | taglist ns =>
+          have hi : isInstance (tagListOf (ns.map (embT tv))) ["TagList"] = true := by simp [tagListOf, isInstance]
+          simp [embResult, hi, pyTagchilds_embT, pyAdd_int1, hsl, TagifyResult.splice]
+        | single x => simp [embResult, not_taglist_embT, hset, TagifyResult.splice]
+      | mnode k => simp [Node.isMeta, pyCopy_meta tv (Node.mnode k) rfl, hset, stepSpec]
+      | dep d hh hd => simp [Node.isMeta, pyCopy_meta tv (Node.dep d hh hd) rfl, hset, stepSpec]
+      | text t => simp [Node.isMeta, stepSpec]
+      | html t => simp [Node.isMeta, stepSpec]
+      | robj t => simp [Node.isMeta, stepSpec]
 
 
 /-- a tag: given the tie for its child list at this fuel -/
@@ -86,13 +86,12 @@ theorem src_tag_tagify_step (h : Tag_tagify_available = true) (G : Globals) (tv 
     Tag_tagify G (fuel + 1) (embT tv (.tag nm ws at' kk)) = .ok (embT tv (tagifyTag (.tag nm ws at' kk))) := by
   first
   | exact absurd h (by decide)
-  | skip
-  rw [Tag_tagify]
-  have hcp : pyCopy (embT tv (.tag nm ws at' kk)) = .ok (embT tv (.tag nm ws at' kk)) := by
-    simp [embT, pyCopy, fieldGet?]
-  have hcls : pyClassOf (tagListOf (embTs tv kk)) = "TagList" := rfl
-  simp only [ok_bind, pure_eq_ok, hcp, getattr_tagT, hcls, HQ]
-  simp [embT, pySetAttr, fieldSet, tagifyTag, tagListOf]
+  | rw [Tag_tagify]
+    have hcp : pyCopy (embT tv (.tag nm ws at' kk)) = .ok (embT tv (.tag nm ws at' kk)) := by
+      simp [embT, pyCopy, fieldGet?]
+    have hcls : pyClassOf (tagListOf (embTs tv kk)) = "TagList" := rfl
+    simp only [ok_bind, pure_eq_ok, hcp, getattr_tagT, hcls, HQ]
+    simp [embT, pySetAttr, fieldSet, tagifyTag, tagListOf]
 
 /-- both functions, for all trees of tag-nesting depth ≤ n, with any fuel that covers the depth -/
 theorem src_tagify_depth (h1 : Tag_tagify_available = true) (h2 : TagList_tagify_available = true)
